@@ -157,6 +157,49 @@ void rminus(const Sc<G> * in, Sc<G> * out)
   put(a - b, out);
 }
 
+// [dr_rminus | d2r_rminus | dr_rminus_squarednorm | d2r_rminus_squarednorm] evaluated at the same e
+template<typename G>
+void rminus_derivs(const Sc<G> * in, Sc<G> * out)
+{
+  Eigen::Map<const typename G::Tangent> e(in);
+  const typename G::Tangent ev = e;
+  put(smooth::dr_rminus<G>(ev), out);
+  put(smooth::d2r_rminus<G>(ev), out);
+  put(smooth::dr_rminus_squarednorm<G>(ev), out);
+  put(smooth::d2r_rminus_squarednorm<G>(ev), out);
+}
+
+// d_matrix_product for square N x N factors depending on Nvar variables; layout as documented
+template<typename S, int N, int Nvar>
+void dmp(const S * in, S * out)
+{
+  Eigen::Matrix<S, N, N> A, B;
+  Eigen::Matrix<S, N, N * Nvar> dA, dB;
+  for (int i = 0; i < N; ++i) for (int j = 0; j < N; ++j) A(i, j) = *in++;
+  for (int i = 0; i < N; ++i) for (int j = 0; j < N * Nvar; ++j) dA(i, j) = *in++;
+  for (int i = 0; i < N; ++i) for (int j = 0; j < N; ++j) B(i, j) = *in++;
+  for (int i = 0; i < N; ++i) for (int j = 0; j < N * Nvar; ++j) dB(i, j) = *in++;
+  put(smooth::d_matrix_product(A, dA, B, dB), out);
+}
+
+template<typename S, int No, int Ny, int Nx, bool Dyn>
+void d2fog(const S * in, S * out)
+{
+  using JfT = std::conditional_t<Dyn, Eigen::Matrix<S, -1, -1>, Eigen::Matrix<S, No, Ny>>;
+  using HfT = std::conditional_t<Dyn, Eigen::Matrix<S, -1, -1>, Eigen::Matrix<S, Ny, No * Ny>>;
+  using JgT = std::conditional_t<Dyn, Eigen::Matrix<S, -1, -1>, Eigen::Matrix<S, Ny, Nx>>;
+  using HgT = std::conditional_t<Dyn, Eigen::Matrix<S, -1, -1>, Eigen::Matrix<S, Nx, Ny * Nx>>;
+  JfT Jf(No, Ny);
+  HfT Hf(Ny, No * Ny);
+  JgT Jg(Ny, Nx);
+  HgT Hg(Nx, Ny * Nx);
+  for (int i = 0; i < No; ++i) for (int j = 0; j < Ny; ++j) Jf(i, j) = *in++;
+  for (int i = 0; i < Ny; ++i) for (int j = 0; j < No * Ny; ++j) Hf(i, j) = *in++;
+  for (int i = 0; i < Ny; ++i) for (int j = 0; j < Nx; ++j) Jg(i, j) = *in++;
+  for (int i = 0; i < Nx; ++i) for (int j = 0; j < Ny * Nx; ++j) Hg(i, j) = *in++;
+  put(smooth::d2_fog(Jf, Hf, Jg, Hg), out);
+}
+
 }  // namespace vh
 
 #define VH_WRAP(NAME, ...) \
